@@ -1,5 +1,10 @@
 package codec
 
+import (
+	"github.com/synnaxlabs/synnax/pkg/distribution/channel"
+	"github.com/synnaxlabs/x/telem"
+)
+
 // Injected by /verif via `go test -overlay`; never part of the repository.
 // Read-only views of the codec's sequence-number backlog for the C08 engine, which
 // lives in the external test package (it also drives the HTTP framer codec, which
@@ -15,3 +20,9 @@ func VerifStates(c *Codec) int { return len(c.mu.states) }
 // VerifPending returns how many updates are queued but not yet processed by an
 // Encode/Decode call, and how many can be queued before Update blocks.
 func VerifPending(c *Codec) (n, capacity int) { return len(c.mu.updates), cap(c.mu.updates) }
+
+// VerifUpdate is Update without the channel-service look-up: the part of Update that
+// hands the new state to the encoding/decoding goroutine.
+func VerifUpdate(c *Codec, keys channel.Keys, dts map[channel.Key]telem.DataType) {
+	c.update(keys, dts)
+}
